@@ -57,6 +57,8 @@ def _build(a, memo):
     if var is not None and a.get("$fix") is not None:
         # a sub-proposition whose own variable is pre-fixed to a constant by construction
         var = puan.variable(var, (a["$fix"], a["$fix"]))
+    if c == "$derive":
+        return apply_via(build(a["arg"], memo), a)
     if c == "Not":
         return pg.Not(build(a["arg"], memo))
     if c == "Imply":
@@ -81,6 +83,208 @@ def _build(a, memo):
     if c == "Stingy":
         return cc.StingyConfigurator(*args, id=var)
     raise ValueError(c)
+
+
+# --------------------------------------------------------------------------- models that are OUTPUTS of other operations
+
+def apply_via(o, a):
+    """the `$derive` node of the AST: the model built from `arg`, put through another public operation of the library —
+    the models a caller actually holds are as often results of assume / reduce / negate / a round trip as they are fresh"""
+    import json as _json, pickle as _pickle
+    via = a["via"]
+    if isinstance(o, str) or is_var(o):
+        return o
+    if via == "negate": return o.negate()
+    if via == "Not": return pg.Not(o)
+    if via == "Imply": return pg.Imply(o, a.get("other", "zq"))
+    if via == "ImplyCons": return pg.Imply(a.get("other", "zq"), o)
+    if via in ("assume", "assume+reduce"):
+        A = {k: (int(v[0]) if v[0] == v[1] else (int(v[0]), int(v[1]))) for k, v in a.get("A", {}).items()}
+        r = o.assume(A)
+        return r.reduce() if via == "assume+reduce" and not is_var(r) else r
+    if via == "reduce": return o.reduce()
+    if via == "json":
+        j = _json.loads(_json.dumps(o.to_json()))
+        if isinstance(o, cc.StingyConfigurator): return cc.StingyConfigurator.from_json(j)
+        return pg.from_json(j)
+    if via == "b64": return pg.from_b64(o.to_b64())
+    if via == "deepcopy": return copy.deepcopy(o)
+    if via == "pickle": return _pickle.loads(_pickle.dumps(o))
+    raise ValueError(via)
+
+
+def has_derive(a):
+    if isinstance(a, dict):
+        return a.get("c") == "$derive" or any(has_derive(v) for v in a.values())
+    if isinstance(a, list):
+        return any(has_derive(v) for v in a)
+    return False
+
+
+def gen_derived(rng, quick=True, vias=None, validate=True, chain_p=0.33, **kw):
+    """(ast, object, snapshot) of a validated model that is the output of one or two other operations applied to a
+    generated valid model; the AST carries the operations (`$derive`) so that a replay rebuilds the same object"""
+    vias = vias or ["negate", "Not", "Imply", "ImplyCons", "assume", "assume", "assume+reduce", "reduce", "json", "b64", "deepcopy", "pickle"]
+    for _ in range(200):
+        a, o, t = gen_valid(rng, quick, twins=False, **kw)
+        if rng.random() < 0.15:
+            try:
+                a = gen_mixed_for_derive(rng); o = build(a); t = snap(o)
+                if is_var(o) or not well_formed(t) or o.errors(): continue
+            except Exception:
+                continue
+        d = None
+        # a third of the chains: something was assumed, then the result was negated (the everyday "rule out what is left")
+        chain = None
+        if "assume" in vias and any(v in vias for v in ("negate", "Not", "Imply")) and rng.random() < chain_p:
+            chain = ["assume", rng.choice([v for v in ("negate", "Not", "Imply") if v in vias])]
+            if rng.random() < 0.6:
+                try:
+                    a = gen_mixed_for_derive(rng); o = build(a); t = snap(o)
+                    if is_var(o) or not well_formed(t) or o.errors(): continue
+                except Exception:
+                    continue
+        for depth_ in range(len(chain) if chain else (2 if rng.random() < 0.4 else 1)):
+            via = chain[depth_] if chain else rng.choice(vias)
+            d = {"c": "$derive", "via": via, "arg": d or a}
+            if via.startswith("assume"):
+                try:
+                    cur = build(d["arg"])
+                    if is_var(cur): break
+                    tc = snap(cur)
+                except Exception:
+                    break
+                A = gen_interp(rng, tc, total=False, in_bounds=True, ranges=rng.random() < 0.2,
+                               allow_compound=rng.random() < 0.3)
+                if chain:
+                    # one or two leaves fixed to their upper bound, nothing else: the rest of the model stays open
+                    lvc = leaves_of(tc)
+                    A = {k: (lvc[k][1], lvc[k][1]) if rng.random() < 0.75 else (lvc[k][0], lvc[k][0])
+                         for k in rng.sample(sorted(lvc), min(len(lvc), rng.randint(1, 2)))}
+                d["A"] = {k: [int(v[0]), int(v[1])] for k, v in A.items()}
+            if via in ("Imply", "ImplyCons"):
+                d["other"] = rng.choice(["zq", "a", "b"])
+        try:
+            o2 = build(d)
+            if is_var(o2) or isinstance(o2, str): continue
+            t2 = snap(o2)
+            if validate and (not well_formed(t2, allow_empty=bool(kw.get("empty_p"))) or o2.errors()): continue
+        except Exception:
+            continue
+        return d, o2, t2
+    raise RuntimeError("no derived model generated")
+
+
+def gen_mixed_for_derive(rng):
+    """atoms next to compounds with and without ids of their own, thresholds other than 1, either sign — the shapes on
+    which negate / assume / reduce take their less common branches"""
+    names = rng.sample("abcdpqxy", 6)
+    lf = lambda n: {"c": "str", "id": n}
+    def comp(ns, named):
+        c = rng.choice(["Any", "All", "AtMost", "AtLeast"])
+        d = {"c": c, "args": [lf(n) for n in ns]}
+        if c in ("AtMost", "AtLeast"): d["v"] = rng.randint(1, len(ns))
+        if named: d["id"] = rng.choice(["B", "C", "Z", "b"]) + str(rng.randint(0, 3))
+        return d
+    kids = [lf(names[0]), lf(names[1]), comp(names[2:4], rng.random() < 0.5)]
+    if rng.random() < 0.5: kids.append(comp(names[4:6], rng.random() < 0.5))
+    if rng.random() < 0.3: kids.append(comp(names[0:2], False))       # a compound over the very atoms that stand beside it
+    rng.shuffle(kids)
+    c = rng.choice(["All", "Any", "AtLeast", "AtLeast", "AtMost"])
+    top = {"c": c, "args": kids}
+    if c in ("AtLeast", "AtMost"): top["v"] = rng.randint(1, len(kids))
+    if rng.random() < 0.6: top["id"] = "A"
+    return top
+
+
+def expected_by_argument(a, sigma):
+    """for a model that is Not / negate / Imply applied to the OUTPUT of another operation: the truth value the connective's
+    documented truth function gives, computed from the real evaluation of the argument object (built afresh) — None if the
+    AST is not of that form or the argument does not evaluate to a constant on `sigma`"""
+    if not isinstance(a, dict) or a.get("c") != "$derive" or a.get("via") not in ("negate", "Not", "Imply", "ImplyCons"):
+        return None
+    try:
+        arg = build(a["arg"])
+        if isinstance(arg, str) or is_var(arg): return None
+        v = arg.evaluate(dict(sigma)).constant
+    except Exception:
+        return None
+    if v is None: return None
+    v = int(v)
+    if a["via"] in ("negate", "Not"): return 1 - v
+    other = a.get("other", "zq")
+    if other not in sigma: return None
+    w = 1 if sigma[other] >= 1 else 0
+    return max(1 - v, w) if a["via"] == "Imply" else max(1 - w, v)
+
+
+# --------------------------------------------------------------------------- relatives: models built FROM a model
+
+KIN = ["negate", "negate", "Not", "Imply", "ImplyCons", "AllNeg"]
+
+
+def make_kin(kind, o):
+    """a model built from `o` that shares with it what the constructors share: negate() hands the variable objects of named
+    nodes and the child objects on, Not / Imply / All hold `o` or its negation as a child"""
+    if kind == "negate": return o.negate()
+    if kind == "Not": return pg.Not(o)
+    if kind == "Imply": return pg.Imply(o, "zq")
+    if kind == "ImplyCons": return pg.Imply("zq", o)
+    if kind == "AllNeg": return pg.All(o.negate(), "zq")
+    raise ValueError(kind)
+
+
+def _compound_objects(o, out=None):
+    out = {} if out is None else out
+    if not is_var(o) and id(o) not in out:
+        out[id(o)] = o
+        for c in o.propositions: _compound_objects(c, out)
+    return out
+
+
+def kin_probe(ctx, o, call, what, detail=None, after_too=False):
+    """the property's operation on a model must leave the models built from it alone — a relative made BEFORE the call
+    answers afterwards like its own untouched copy — and (after_too) a relative made AFTER the call from the receiver is the
+    one made from an untouched copy of the receiver.  Relatives that hold one of the receiver's compound node OBJECTS are
+    left out: on those the known finding F-C09a (a dictionary naming a sub-proposition re-binds that node's variable) shows."""
+    kind = ctx.rng.choice(KIN)
+    m = copy.deepcopy(o)
+    try:
+        n = make_kin(kind, m)
+    except Exception:
+        return
+    if is_var(n): return
+    shared = set(_compound_objects(m)) & set(_compound_objects(n))
+    if shared and not after_too:
+        ctx.tags["relative-shares-node-objects-with-the-receiver"] += 1
+        return
+    n_ref = copy.deepcopy(n)
+    m_ref = copy.deepcopy(m)
+    call(m)
+    ctx.tags["relative-probe-" + kind] += 1
+    if not shared:
+        before, after = snap(n_ref), snap(n)
+        if before != after:
+            ctx.fail("a-model-built-from-the-receiver-changed-when-the-receiver-was-" + what,
+                     {"relative": kind, "relative_before": before, "relative_after": after, **(detail or {})})
+            return True
+        for sigma in assignments(ctx.rng, leaves_of(before), 6):
+            v1, v0 = n.evaluate(dict(sigma)).as_tuple(), n_ref.evaluate(dict(sigma)).as_tuple()
+            if v1 != v0:
+                ctx.fail("a-model-built-from-the-receiver-evaluates-differently-after-the-receiver-was-" + what,
+                         {"relative": kind, "sigma": sigma, "now": list(map(int, v1)), "untouched_copy": list(map(int, v0)), **(detail or {})})
+                return True
+    if after_too:
+        try:
+            k1, k0 = make_kin(kind, m), make_kin(kind, m_ref)
+        except Exception:
+            return
+        s1, s0 = snap(k1), snap(k0)
+        if s1 != s0:
+            ctx.fail("a-model-built-from-the-receiver-after-it-was-" + what + "-differs-from-one-built-from-an-untouched-copy",
+                     {"relative": kind, "from_receiver": s1, "from_untouched_copy": s0, **(detail or {})})
+            return True
+    return False
 
 
 # --------------------------------------------------------------------------- snapshots
@@ -183,6 +387,7 @@ def ast_safe(a):
     if c == "var": return (a["lo"], a["hi"]) == (0, 1)
     if c == "str": return True
     atom = lambda x: x["c"] in ("var", "str")
+    if c == "$derive": return False
     if c == "Not": return ast_safe(a["arg"])
     if c == "Imply": return ast_safe(a["cond"]) and ast_safe(a["cons"])
     if c in ("ccAny", "ccXor"): return False
@@ -489,6 +694,7 @@ def declared_bounds(a):
     out = {}
     def walk(x):
         if isinstance(x, dict):
+            if x.get("c") == "$derive": return
             if x.get("c") == "var": out.setdefault(x["id"], (x["lo"], x["hi"]))
             elif x.get("c") == "str": out.setdefault(x["id"], (0, 1))
             else:
